@@ -179,6 +179,13 @@ func genRound(o *hx.Out, r *prng.R, s *scen, senders []*acct, committee *acct, n
 				signers = append(signers, b)
 			}
 		}
+		guardD := 0
+		if r.Chance(1, 4) {
+			// cosigned by an inline script that stops verifying once the chain is guardD blocks higher
+			guardD = r.Range(1, 3)
+			signers = append(signers, s.w.ledgerGuard(height+uint32(guardD)))
+			o.Count(fmt.Sprintf("proposal:tx-with-state-dependent-witness:d=%d", guardD))
+		}
 		pad := []int{0, 20, 200, 1000, r.Range(0, 3000)}[r.Intn(5)]
 		c := s.newCand(r, signers, pad)
 		c.tx.SystemFee = int64(r.Range(0, 3)) * 1_0000_0000 / int64(r.Range(1, 4))
@@ -356,6 +363,23 @@ func proposalCase(o *hx.Out, k int, r *prng.R) {
 			}
 		}
 		o.Add("proposal:pooled", pooled)
+		if r.Chance(1, 2) {
+			// the chain moves on before this node proposes: the pool is re-checked against the new state
+			nblk := r.Range(1, 2)
+			for i := 0; i < nblk; i++ {
+				if !send(A.addBlock(), "interleaved-block") {
+					return
+				}
+			}
+			o.Count("proposal:interleaved-blocks")
+		}
+		// what is pooled is admissible on the current state (each on its own)
+		for _, t := range mp.GetVerifiedTransactions() {
+			if err := A.bc.VerifyTx(t); err != nil {
+				o.Fail("pool-holds-inadmissible-tx", k, "pooled transaction %s does not verify at height %d: %v", t.Hash().StringLE(), A.bc.BlockHeight(), err)
+				break
+			}
+		}
 		txs := mp.GetVerifiedTransactions()
 		picked := A.bc.ApplyPolicyToTxSet(txs)
 
